@@ -203,7 +203,6 @@ func evalPostConcrete(p *Program, o *Obligation, fn *ssa.Function, pre, post, re
 	return verdict, why
 }
 
-
 func cmdSelftest(args []string) int { return 2 }
 
 type inputShow struct{ Name, Show string }
